@@ -96,6 +96,64 @@ def files_idempotence(ctx, replay=None):
     return {"violations": viol, "disagreements": [], "coverage": {"file_store_idempotence_cases": done}}
 
 
+def path_source_cases(ctx, replay=None):
+    """A bundled PathSource upstream of a stored value: when the file behind the path changes (the path given as str, as
+    pathlib.Path, or being a symbolic link to the file), the stored value is out of date and is rebuilt — once."""
+    import os
+    import pathlib
+    import tempfile
+    import time
+
+    import uberjob
+    from uberjob.stores import JsonFileStore, PathSource
+    viol, done = [], 0
+    cases = [replay["path_case"]] if replay else ["str", "pathlib", "symlink", "symlink-pathlib"]
+    for kind in cases:
+        with tempfile.TemporaryDirectory() as d:
+            data = os.path.join(d, "data.txt")
+            with open(data, "w") as fh:
+                fh.write("v1")
+            p = data
+            if kind.startswith("symlink"):
+                p = os.path.join(d, "latest")
+                os.symlink(data, p)
+            if kind.endswith("pathlib"):
+                p = pathlib.Path(p)
+            calls = []
+
+            def build():
+                plan, reg = uberjob.Plan(), uberjob.Registry()
+                src = reg.source(plan, PathSource(p))
+
+                def load(path):
+                    calls.append("load")
+                    with open(path) as fh:
+                        return fh.read()
+                a = plan.call(load, src)
+                reg.add(a, JsonFileStore(os.path.join(d, "a.json")))
+                return plan, reg, a
+
+            def run():
+                del calls[:]
+                plan, reg, a = build()
+                return uberjob.run(plan, registry=reg, output=a, progress=None), list(calls)
+            time.sleep(0.02)
+            r1 = run()
+            time.sleep(0.02)
+            with open(data, "w") as fh:                       # the file behind the path changes, in place
+                fh.write("v2")
+            time.sleep(0.02)
+            r2 = run()
+            r3 = run()
+            done += 1
+            if r1 != ("v1", ["load"]) or r2 != ("v2", ["load"]) or r3 != ("v2", []):
+                viol.append({"property": "C05", "what": f"PathSource given as {kind}: run / change the file / run / run gave "
+                             f"{[r1, r2, r3]}, expected [('v1', ['load']), ('v2', ['load']), ('v2', [])]",
+                             "replay_fn": "path_source", "path_case": kind})
+                break
+    return {"violations": viol, "disagreements": [], "coverage": {"path_source_cases": done}}
+
+
 def explore(ctx):
     n = 110 if ctx.tier == "quick" else 4000
     res = ce.explore_cache(ctx, PROPS, n, steps=6)
@@ -103,6 +161,10 @@ def explore(ctx):
         f = files_idempotence(ctx)
         res["violations"] += f["violations"]
         res["coverage"].update(f["coverage"])
+        if not res["violations"]:
+            f = path_source_cases(ctx)
+            res["violations"] += f["violations"]
+            res["coverage"].update(f["coverage"])
     return res
 
 
@@ -123,6 +185,9 @@ def search(ctx, broken):
 
 def replay(ctx, payload):
     w = payload.get("witness", payload)
+    if w.get("replay_fn") == "path_source":
+        r = path_source_cases(ctx, replay=w)
+        return r["violations"][0]["what"] if r["violations"] else None
     if w.get("replay_fn") == "files":
         r = files_idempotence(ctx, replay=w)
         return r["violations"][0]["what"] if r["violations"] else None
